@@ -856,7 +856,9 @@ class MultipleRangeStaticProducer(StaticProducer):
                     done = True
                     break
         self.request.write(b"".join(data))
-        if done:
+        # the .write above may have called .resumeProducing re-entrantly (see
+        # SingleRangeStaticProducer), which then already finished the request
+        if done and self.request:
             self.request.unregisterProducer()
             self.request.finish()
             self.stopProducing()
